@@ -4,6 +4,7 @@
 package main
 
 import (
+	"bytes"
 	"context"
 	"fmt"
 	"io"
@@ -23,11 +24,12 @@ const helloTyp = 1
 const markerID = uint64(1) << 60
 
 // A scenario is a list of lines:
-//   calls n=<N>
-//   frame <kind> c=<caller> ...    peer sends a frame (built from the caller's real id)
-//   raw <hex>                      peer sends these bytes verbatim
-//   sendfail                       (before calls) every request write fails
-//   sever                          peer cuts the connection
+//
+//	calls n=<N>
+//	frame <kind> c=<caller> ...    peer sends a frame (built from the caller's real id)
+//	raw <hex>                      peer sends these bytes verbatim
+//	sendfail                       (before calls) every request write fails
+//	sever                          peer cuts the connection
 type scenario struct{ lines []string }
 
 func (s scenario) canon() string { return strings.Join(s.lines, ";") }
@@ -106,6 +108,13 @@ func genScenario(r *hx.Rand, big bool) scenario {
 			ls = append(ls, fmt.Sprintf("frame ok c=%d", c))
 		}
 	}
+	if !fatal && answered < n && r.Intn(3) == 0 {
+		// the connection dies in the middle of a reply: its header, the announced length and only
+		// part of the body arrive (as a non-final websocket fragment), then nothing
+		announced := 8 + r.Intn(2000)
+		ls = append(ls, fmt.Sprintf("partial c=%d announced=%d arrived=%d", perm[answered], announced, r.Intn(announced)))
+		return scenario{ls}
+	}
 	ls = append(ls, "sever")
 	return scenario{ls}
 }
@@ -114,10 +123,10 @@ type outcome struct {
 	modelFree  bool
 	readerDied bool
 	unordered  bool
-	results []string // per caller: ok:<hex of reply> | err:<class> | stuck
-	model   []string // lines for the driver
-	note    string
-	skipped bool
+	results    []string // per caller: ok:<hex of reply> | err:<class> | stuck
+	model      []string // lines for the driver
+	note       string
+	skipped    bool
 }
 
 func kv(ws []string, k string) string {
@@ -174,7 +183,7 @@ func runScenario(sc scenario, rep *hx.Report) outcome {
 
 	n := 0
 	sendfail := false
-	idOf := map[int]uint64{}   // caller -> id
+	idOf := map[int]uint64{} // caller -> id
 	callerOf := map[uint64]int{}
 	firstGood := map[int]string{} // caller -> first well-formed matching reply body (oracle)
 	answeredBeforeFatal := map[int]bool{}
@@ -183,6 +192,7 @@ func runScenario(sc scenario, rep *hx.Report) outcome {
 	var wg sync.WaitGroup
 	dead := false // reader of the client is dead (fatal frame)
 	lateIdx := -1
+	partialCaller := -1
 	var lateRelease, lateReached chan struct{}
 	_ = lateIdx
 
@@ -374,6 +384,33 @@ func runScenario(sc scenario, rep *hx.Report) outcome {
 			}
 			p.Send(snix.ReplyFrame(sd.ID, 0, 0, nil)) // the endpoint acknowledges the shutdown; nothing else was answered
 			time.Sleep(30 * time.Millisecond)
+		case "partial":
+			if dead || sendfail || out.modelFree {
+				continue
+			}
+			marker := snix.ReplyFrame(markerID, helloTyp, 0, snix.StrBody("MARK"))
+			p.Send(marker)
+			out.model = append(out.model, "reply cap=0 "+hx.Hex(marker))
+			select {
+			case <-markerSeen:
+			case <-time.After(10 * time.Second):
+				out.skipped, out.note = true, "marker frame not consumed within 10 s"
+				out.readerDied = true
+				return out
+			}
+			c := atoi(kv(ws, "c"))
+			announced, arrived := atoi(kv(ws, "announced")), atoi(kv(ws, "arrived"))
+			part := snix.ReplyFrame(idOf[c], helloTyp, 0, append(snix.U64(uint64(announced)), bytes.Repeat([]byte("A"), arrived)...))
+			// a non-final binary fragment, written below the websocket library (server frames are not masked)
+			hdr := []byte{0x02, byte(len(part))}
+			if len(part) >= 126 {
+				hdr = []byte{0x02, 126, byte(len(part) >> 8), byte(len(part))}
+			}
+			p.Conn.UnderlyingConn().Write(append(hdr, part...))
+			time.Sleep(20 * time.Millisecond)
+			p.Sever()
+			partialCaller = c
+			out.model = append(out.model, "reply cap=0 "+hx.Hex(part), "ev sever", "quiesce")
 		case "sever":
 			// let the client consume what was sent before the cut (frames are ordered on the
 			// connection, and the cut is observed by the reader only after them)
@@ -408,6 +445,10 @@ func runScenario(sc scenario, rep *hx.Report) outcome {
 	out.results = append([]string{}, results...)
 	mu.Unlock()
 	out.model = append(out.model, "results")
+	if partialCaller >= 0 && partialCaller < len(out.results) && out.results[partialCaller] == "err:2" {
+		// whether the cut shows as an unexpected EOF or as a reset is the kernel's choice
+		out.results[partialCaller] = "err:eof"
+	}
 
 	// direct oracle
 	for c, r := range out.results {
